@@ -1,0 +1,46 @@
+//go:build verif
+
+// Contracts for the verification engine in /verif (govc). This file contains comments only:
+// it adds no code with or without the build tag "verif". Syntax: /verif/DESIGN.md section 3.2.
+// Here the abstract store contract (/verif/theory/store.spec) is the PROOF GOAL, over the assumed
+// afero.Fs contract (O_EXCL open fails iff the file exists).
+
+package localfs
+
+// ---- Put: create-if-absent is O_EXCL; a failed write is never reported as success (C16, C03) ------
+//@ func (*localFS).Put
+//@   requires l != nil
+//@   call Retry#1 assert [excl-flag] flag == ite(exclusive, bitor(bitor(bitor(bitor(os.O_CREATE, os.O_WRONLY), os.O_SYNC), os.O_TRUNC), os.O_EXCL), bitor(bitor(bitor(os.O_CREATE, os.O_WRONLY), os.O_SYNC), os.O_TRUNC))
+//@   call Retry#2 assert [excl-flag] flag == ite(exclusive, bitor(bitor(bitor(bitor(os.O_CREATE, os.O_WRONLY), os.O_SYNC), os.O_TRUNC), os.O_EXCL), bitor(bitor(bitor(os.O_CREATE, os.O_WRONLY), os.O_SYNC), os.O_TRUNC))
+//@   call Retry#1 bind r1 = $ret0
+//@   call Retry#2 bind r2 = $ret0
+//@   ensures [propagate] (r1_set && r1 != nil) || (r2_set && r2 != nil) ==> err != nil
+
+//@ func (*localFS).Put$2
+//@   call OpenFile#1 assert [open] $name == key && $flag == flag
+//@   call OpenFile#1 bind oe = $ret1
+//@   call WriteTo#1 bind we = $ret1
+//@   call Close#1 bind ce = $ret0
+//@   ensures [open-error] oe_set && oe != nil ==> result != nil
+//@   ensures [write-error] we_set && we != nil ==> result != nil
+//@   ensures [close-error] ce_set && ce != nil ==> result != nil
+
+//@ func (*localFS).Put$3
+//@   call OpenFile#1 assert [open] $name == key && $flag == flag
+//@   call OpenFile#1 bind oe = $ret1
+//@   call PipeIO#1 bind we = $ret1
+//@   call Close#1 bind ce = $ret0
+//@   ensures [open-error] oe_set && oe != nil ==> result != nil
+//@   ensures [write-error] we_set && we != nil ==> result != nil
+//@   ensures [close-error] ce_set && ce != nil ==> result != nil
+
+// ---- KeysPrefix: delimiter truncation and pagination (C16) ---------------------------------------
+//@ func (*localFS).KeysPrefix$1
+//@   call Index#1 bind cut = $ret0
+//@   call TrimPrefix#1 assert [delim-cut] cut_set && cut >= 0 ==> len($0) == len(prefix) + cut + 1
+//@   call append#1 assert [delim-cut] !noRoot && cut_set && cut >= 0 ==> len(pth#1) == len(prefix) + cut + 1
+//@   call HasPrefix#1 assert [match] $0 == pth && $1 == prefix
+
+//@ func (*localFS).KeysPrefix
+//@   requires l != nil && count > 0
+//@   ensures [page-size] ret2 == nil ==> len(ret0) <= count
